@@ -60,6 +60,58 @@ CLAIMS.update({
     },
 })
 
+CLAIMS.update({
+    'C01': {
+        'text': 'Static: wrapper dataflow skeleton (same key to lookup and store; hit returns the looked-up payload, otherwise the body result, which is what is stored), lookups search '
+                'under the requested key and return a clone of that entry, every non-oversize store path inserts (key, value) - the store overwrites -, store statics are function-local. '
+                'Equality of values over histories is not decided.',
+        'design_ref': 'DESIGN.md section 5 C01', 'note': TRUST, 'technique': 'expression-tree dataflow identities on generated wrappers + must-pass-through store insertion on specialised MIR paths',
+    },
+    'C02': {
+        'text': 'Static: each parameter (receiver first) contributes exactly one Debug/to_cache_key part in order, parts joined by a separator that cannot occur unquoted in a Debug '
+                'rendering; default key is format!("{:?}", self). Injectivity of std Debug is trusted.',
+        'design_ref': 'DESIGN.md section 5 C02', 'note': TRUST, 'technique': 'key-builder shape rule over the type-checked expansion of a fixture corpus',
+    },
+    'C03': {
+        'text': 'Static: hit returns before the body, miss runs it once and stores once (plain types, no cache_if) in every fixture scenario; with no limit/max_memory/ttl no store removal is '
+                'reachable from lookups or stores. Concurrent-miss clause not decided.',
+        'design_ref': 'DESIGN.md section 5 C03', 'note': TRUST, 'technique': 'oracle-driven scenario table on wrapper MIR + unbounded-configuration specialisation of the core',
+    },
+    'C09': {
+        'text': 'Static: for every fixture whose resolved return type is Result (six spellings x flavours x memory) and no cache_if, the store is Ok-guarded; core insert_result* store only in '
+                'the Ok arm. Alias spellings are a recorded known finding.',
+        'design_ref': 'DESIGN.md section 5 C09', 'note': TRUST, 'technique': 'resolved-type vs generated-store agreement on the fixture corpus + control-dependence in core',
+    },
+    'C10': {
+        'text': 'Static: the named cache_if predicate is consulted exactly once per body execution, never on a hit, with (key, result); the store happens exactly on its true edge; sync Result '
+                'functions keep the Ok-only store. Predicate families over histories are not decided.',
+        'design_ref': 'DESIGN.md section 5 C10', 'note': TRUST, 'technique': 'oracle-driven scenario table on wrapper MIR',
+    },
+    'C11': {
+        'text': 'Static: the named invalidate_on check is consulted once per found entry with (key, cached); cached value returned only on its false edge, true edge re-executes and stores; '
+                'stores overwrite in all flavours.',
+        'design_ref': 'DESIGN.md section 5 C11', 'note': TRUST, 'technique': 'oracle-driven scenario table on wrapper MIR + must-pass-through store insertion in core',
+    },
+    'C12': {
+        'text': 'Static: registry tables agree between register and the three lookups, every looked-up callback is invoked and counted once, generated code registers name/metadata/clear '
+                'callback from the attribute lists before the first lookup, and the clear callback empties store and queue of its own function only.',
+        'design_ref': 'DESIGN.md section 5 C12', 'note': TRUST, 'technique': 'table-agreement (sibling) rules on registry MIR + registration/callback shape rules on fixtures',
+    },
+    'C13': {
+        'text': 'Static: conditional callbacks remove exactly the predicate-selected keys from store and queue together and touch only their own statics; the registry routes the predicate to the '
+                'named cache / gives each cache its own name.',
+        'design_ref': 'DESIGN.md section 5 C13', 'note': TRUST, 'technique': 'expression-tree shape rules on generated callbacks and registry routing',
+    },
+    'C14': {
+        'text': 'Static: thread scope can only be built on LocalKey<RefCell<..>>, global scope on process statics (field types + compile-fail witnesses with compiling twins); the scope attribute '
+                'selects the matching branch built on statics of the right kind owned by the function. Isolation/sharing is then a type fact.',
+        'design_ref': 'DESIGN.md section 5 C14', 'note': TRUST, 'technique': 'type facts + compile-fail witnesses + scope-branch folding on fixtures',
+    },
+    'C19': {
+        'text': 'Static: on a corpus generated from the attribute grammar (families + pairwise cover) constructor constants, policy, scope, store method, key builder, registration names and lists '
+                'equal the attribute list; invalid attribute lists are rejected with the macro\'s message and valid twins compile. Behavioural equivalence beyond configuration identity not decided.',
+        'design_ref': 'DESIGN.md section 5 C19', 'note': TRUST, 'technique': 'configuration-identity rules on the fixture corpus + compile-fail witness corpus',
+    },
+})
+
 NOT_APPLICABLE = {}
-for _p in ['C01', 'C02', 'C03', 'C09', 'C10', 'C11', 'C12', 'C13', 'C14', 'C19']:
-    NOT_APPLICABLE[_p] = 'rules not built yet (work in progress; see DESIGN.md section 10 build order)'
